@@ -1178,13 +1178,14 @@ impl<'a> CompilerState<'a> {
                                 set_const_ex = true;
                             }
                             Rule::bank => {
+                                let start = p.as_span().start();
                                 memory = VariableMemory::ROM(
                                     p.into_inner()
                                         .next()
                                         .unwrap()
                                         .as_str()
                                         .parse::<u32>()
-                                        .unwrap(),
+                                        .map_err(|_| self.syntax_error("Bad bank number", start))?,
                                 )
                             }
                             Rule::superchip => memory = VariableMemory::Superchip,
@@ -1955,13 +1956,14 @@ impl<'a> CompilerState<'a> {
                     inline = true;
                 }
                 Rule::bank => {
+                    let start = pair.as_span().start();
                     bank = pair
                         .into_inner()
                         .next()
                         .unwrap()
                         .as_str()
                         .parse::<u32>()
-                        .unwrap();
+                        .map_err(|_| self.syntax_error("Bad bank number", start))?;
                     if bank != 0 && inline {
                         return Err(
                             self.syntax_error("Bank spec and inlining are incompatible", start)
